@@ -318,4 +318,8 @@ func runC13(r *Run) {
 		}
 		r.atLeast("collector deletes", n, 1)
 	})
+
+	r.rule("R9", "function-valued Config fields the limiter calls are never nil (E1): set by configDefault on every path, also when no config is passed", func() {
+		configFuncFieldsRule(r, limPkg, "limiter")
+	})
 }
